@@ -253,6 +253,119 @@ pub fn check_rigid(c: &RigidCase) -> CaseResult {
         .label(if c.theta == 0.0 { "translation" } else { "rotation" }))
 }
 
+// ---------------------------------------------------------------------------------------------
+// a box object with a history: vertices generated, then moved / rotated / resized through its
+// public fields and methods; the geometry that counts is the current one
+
+#[derive(Clone, Debug, Serialize, Deserialize)]
+pub enum BoxEdit {
+    GenVertices,
+    SetXc(f32),
+    SetYc(f32),
+    RotateMut(f32),
+    SetAngle(Option<f32>),
+    SetAspect(f32),
+    SetHeight(f32),
+    CloneIt,
+}
+
+#[derive(Clone, Debug, Serialize, Deserialize)]
+pub struct HistoryCase {
+    pub a: UB,
+    pub b: UB,
+    pub edits_a: Vec<BoxEdit>,
+    pub edits_b: Vec<BoxEdit>,
+}
+
+fn apply(b: &UB, edits: &[BoxEdit]) -> (Universal2DBox, UB) {
+    let mut cur = *b;
+    let mut l = b.lib();
+    for e in edits {
+        match e {
+            BoxEdit::GenVertices => {
+                l.gen_vertices();
+            }
+            BoxEdit::SetXc(v) => {
+                l.xc = *v;
+                cur.xc = *v;
+            }
+            BoxEdit::SetYc(v) => {
+                l.yc = *v;
+                cur.yc = *v;
+            }
+            BoxEdit::RotateMut(a) => {
+                l.rotate_mut(*a);
+                cur.angle = Some(*a);
+            }
+            BoxEdit::SetAngle(a) => {
+                l.angle = *a;
+                cur.angle = *a;
+            }
+            BoxEdit::SetAspect(v) => {
+                l.aspect = *v;
+                cur.aspect = *v;
+            }
+            BoxEdit::SetHeight(v) => {
+                l.height = *v;
+                cur.height = *v;
+            }
+            BoxEdit::CloneIt => {
+                l = l.clone();
+            }
+        }
+    }
+    (l, cur)
+}
+
+pub fn check_history(c: &HistoryCase) -> CaseResult {
+    let (la, ca) = apply(&c.a, &c.edits_a);
+    let (lb, cb) = apply(&c.b, &c.edits_b);
+    let (ra, rb) = (ca.rbox(), cb.rbox());
+    let amin = ra.area().min(rb.area());
+    let ref_i = geom::intersection_area(&ra, &rb);
+    let mag = ra.xc.abs().max(ra.yc.abs()).max(rb.xc.abs()).max(rb.yc.abs()) + ra.radius() + rb.radius();
+    let tol = AREA_TOL * amin + 1e3 * f64::EPSILON * mag * mag;
+    let i = Universal2DBox::intersection(&la, &lb);
+    ensure!((i - ref_i).abs() <= tol, "history-intersection", "after edits the intersection is {} but the current boxes {:?} / {:?} intersect in {}", i, ca, cb, ref_i);
+    let iou = Universal2DBox::calculate_metric_object(&Some(&la), &Some(&lb));
+    let ref_iou = ref_i / (ra.area() + rb.area() - ref_i);
+    match iou {
+        Some(v) => ensure!((v as f64 - ref_iou).abs() <= IOU_TOL + tol / amin, "history-iou", "after edits IoU is {} but the current boxes have IoU {}", v, ref_iou),
+        None => ensure!(ref_i <= tol, "history-iou", "after edits IoU is absent but the current boxes intersect in {}", ref_i),
+    }
+    // the polygon reported for the box is the current one
+    let poly = la.get_vertices();
+    let area = geo::Area::unsigned_area(&poly);
+    ensure!((area - ra.area()).abs() <= 1e-5 * ra.area(), "history-vertices", "get_vertices() has area {} but the box area is {}", area, ra.area());
+    // the raw clipper on owned copies
+    let clip = la.clone().sutherland_hodgman_clip(lb.clone()).unsigned_area();
+    ensure!((clip - ref_i).abs() <= tol, "history-clip", "sutherland_hodgman_clip on copies gives {} but the current boxes intersect in {}", clip, ref_i);
+    // ... and on the edited objects themselves (moved into the call, no copy in between)
+    let (la2, _) = apply(&c.a, &c.edits_a);
+    let (lb2, _) = apply(&c.b, &c.edits_b);
+    let clip2 = la2.sutherland_hodgman_clip(lb2).unsigned_area();
+    ensure!((clip2 - ref_i).abs() <= tol, "history-clip-moved", "sutherland_hodgman_clip on the edited boxes themselves gives {} but the current boxes intersect in {}", clip2, ref_i);
+    let stale_possible = c.edits_a.iter().chain(c.edits_b.iter()).position(|e| matches!(e, BoxEdit::GenVertices)).is_some();
+    Ok(CaseOk::new(stale_possible && ref_i > tol).label_if(stale_possible, "vertices_generated_before_edit"))
+}
+
+fn history_case() -> impl Strategy<Value = HistoryCase> {
+    let edit = || {
+        prop_oneof![
+            3 => Just(BoxEdit::GenVertices),
+            2 => (-20.0f32..20.0).prop_map(BoxEdit::SetXc),
+            2 => (-20.0f32..20.0).prop_map(BoxEdit::SetYc),
+            2 => (-3.2f32..3.2).prop_map(BoxEdit::RotateMut),
+            1 => prop_oneof![Just(None), (-3.2f32..3.2).prop_map(Some)].prop_map(BoxEdit::SetAngle),
+            1 => (0.3f32..3.0).prop_map(BoxEdit::SetAspect),
+            1 => (2.0f32..30.0).prop_map(BoxEdit::SetHeight),
+            1 => Just(BoxEdit::CloneIt),
+        ]
+    };
+    let bx = || (-20.0f32..20.0, -20.0f32..20.0, prop_oneof![1 => Just(None), 3 => (-3.2f32..3.2).prop_map(Some)], 0.3f32..3.0, 2.0f32..30.0).prop_map(|(x, y, a, asp, h)| UB::new(x, y, a, asp, h));
+    (bx(), bx(), proptest::collection::vec(edit(), 0..6), proptest::collection::vec(edit(), 0..6)).prop_map(|(a, b, edits_a, edits_b)| HistoryCase { a, b, edits_a, edits_b })
+}
+
 pub fn run(env: &Env, rep: &Report) {
     rep.set_rule("pairs of valid boxes in constructed configurations (general/touching/nested/identical/edge-sharing/concentric/around bounding-circle reach), angles None/0/k*pi/2/random/|a|>2pi, sizes 0.1..1e3, coordinates to 1e4; rigid motions on a 2^-8 grid. Non-trivial: reference intersection strictly between 0 and the smaller area with >=1 rotated box, or a constructed degenerate configuration; distinct = distinct serialized case");
     rep.assume("reference geometry kernel (oracle/geom.rs, f64, local coordinates) is correct; self-checked for symmetry on every case");
@@ -262,12 +375,14 @@ pub fn run(env: &Env, rep: &Report) {
     par_generated(rep, "pair", box_pair, n, w, check_pair);
     let n = env.tier.pick(60_000, 1_500_000);
     par_generated(rep, "rigid", rigid_case, n, w, check_rigid);
+    par_generated(rep, "edited-boxes", history_case, env.tier.pick(100_000, 2_000_000), w, check_history);
 }
 
 pub fn replay(sub: &str, case: Value) -> Option<CaseResult> {
     match sub {
         "pair" => Some(replay_case(case, check_pair, sub)),
         "rigid" => Some(replay_case(case, check_rigid, sub)),
+        "edited-boxes" => Some(replay_case(case, check_history, sub)),
         _ => None,
     }
 }
